@@ -38,6 +38,10 @@ const (
 	// allow even more is abandoned without a verdict (labelled, never a violation).
 	infraStepCap = 1_000_000
 
+	// infraWorkCap bounds the monitor's own work (items visited by all walks of one run, about 0.5 s); a run that needs
+	// more is abandoned the same way. Both caps are far above what generated cases normally need.
+	infraWorkCap = 40_000_000
+
 	defaultBaseFee = 30 * vm.ExecFeeFactorMultiplier
 )
 
@@ -208,8 +212,10 @@ func Monitor(c Case) (*Report, error) {
 	// State check, run on the initial state and after every instruction that completed without FAULT.
 	// (pkg/vm/vm.go, execute(): the VM enforces its item limit once per instruction, after it ran; a FAULTed VM's
 	// state is documented as undefined, so nothing is asserted about it beyond "it stopped".)
+	work := 0
 	checkState := func(when string) error {
 		w.walkVM(v)
+		work += w.count + len(v.Istack()) + 1
 		if w.bad != "" {
 			return fmt.Errorf("%s: %s", when, w.bad)
 		}
@@ -250,7 +256,7 @@ func Monitor(c Case) (*Report, error) {
 			return rep, fmt.Errorf("the VM is about to execute step %d under gas limit %d datoshi (base fee %d picoGAS): more steps than the price table allows (%d), consumed so far %d",
 				rep.Steps+1, c.GasLimit, base, stepBound, v.GasConsumed())
 		}
-		if rep.Steps >= infraStepCap {
+		if rep.Steps >= infraStepCap || work > infraWorkCap {
 			rep.State = "CAPPED"
 			return rep, nil
 		}
@@ -281,6 +287,7 @@ func Monitor(c Case) (*Report, error) {
 				w.reset()
 				w.target = p
 				w.walkVM(v)
+				work += w.count + len(v.Istack()) + 1
 				w.target = nil
 				rep.CompoundOps++
 				if w.indeg >= 2 {
